@@ -7,4 +7,22 @@ Bound == Len(hist) <= Depth
 BoundTree == Len(hist) <= Depth + 1
 PrintAtDepth == Len(hist) = Depth + 1 => PrintT(<<"B", ToJson(hist)>>)
 Edge == PrintT(<<"B", ToJson(hist')>>)
+
+(* The waiting regime as a COMPLETE tree: one or two subscribers (SubIds) and a write guard first, then every path over guard      *)
+(* updates / drop, polls through the stream and through next_ref(), writer calls (Update: the order of completion  *)
+(* shows in the value), re-polls of whoever waits, and a new guard once everybody is done.                         *)
+WaitVias == {"Poll", "PollNext"}
+NextAWait ==
+    IF Len(hist) = 1 THEN Plain(SubscribeReset(1, 1))              \* subscriber 1 starts with something unseen
+    ELSE IF Len(hist) = 2 /\ 2 \in SubIds THEN Plain(Subscribe(1, 2))
+    ELSE IF guards[1].t = "none" /\ Len(hist) <= 3 /\ ~(\E i \in 1..Len(hist) : hist[i].op = "Write") THEN Plain(OwnerWrite(1, 1))
+    ELSE \/ \E g \in GuardIds : DropGuardA(g)
+         \/ Plain(\E g \in WriteGuards : Set("g", g, 1))
+         \/ \E f \in FutIds : PollFut(f)
+         \/ \E s \in WaitingSubs : PollWaiting(s, WaiterOf(s).via)
+         \/ \E s \in SubIds \ WaitingSubs, via \in WaitVias : PollBlocked(s, via)
+         \/ Plain(\E s \in SubIds \ WaitingSubs, via \in WaitVias : ReadNow /\ Poll(s, via))
+         \/ \E f \in {Smallest(FutIds \ PendingFuts)} : f \in FutIds /\ StartWriter(1, f, "Update", 1)
+         \/ Quiet /\ Plain(\E g \in NewGuard : OwnerWrite(1, g) \/ OwnerRead(1, g))
+SpecAWait == AInit /\ val = 0 /\ [][NextAWait]_allvars
 =============================================================================
